@@ -17,6 +17,7 @@ type Control struct {
 	New             string
 	Expect          string // rule name that must report a violation under the mutation
 	ExpectConstruct string // optional substring of the construct
+	Silent          bool   // negative control: a behaviour-preserving rewrite on which the check must raise nothing new
 }
 
 // Prop is a registered property check.
